@@ -338,6 +338,47 @@ def run_combine():
     return common.explore(fn, 'combine')
 
 
+def run_stale():
+    """a parser built under one library mode is used after the caller changed the mode: the parse must hand back the
+    mode the caller had set (solver variables: mode at construction, mode at the call, parser mode, entry point)"""
+    cssutils = common.setup_lifted()
+    from sx.core import fresh_bool, fresh_int
+
+    def fn():
+        g0, g1, r = fresh_bool('mode_at_construction'), fresh_bool('mode_at_call'), fresh_bool('parser_mode')
+        entry = fresh_int('entry', 0, 2)
+        inputs = {'kind': 'stale', 'g0': g0, 'g1': g1, 'r': r, 'entry': entry}
+        common.set_inputs(inputs)
+        info = {'in': inputs, 'tags': ['stale']}
+        problem = _stale(cssutils, bool(g0), bool(g1), bool(r), int(entry))
+        _reset(cssutils)
+        if problem:
+            info['note'] = {'problem': problem}
+            return False, info
+        return True, info
+
+    return common.explore(fn, 'stale-parser-mode')
+
+
+def _stale(cssutils, g0, g1, r, entry):
+    cssutils.log.raiseExceptions = g0
+    parser = cssutils.CSSParser(raiseExceptions=r, validate=False, fetcher=lambda url: None)
+    cssutils.log.raiseExceptions = g1
+    try:
+        if entry == 0:
+            parser.parseString('a{b:c}')
+        elif entry == 1:
+            parser.parseStyle('b:c')
+        else:
+            parser.parseString('a{b:c')      # incomplete: logged or raised
+    except Exception:
+        pass
+    if cssutils.log.raiseExceptions is not g1:
+        return ('library mode raiseExceptions was %s when the parser was built and %s before the call; after the call it is %s'
+                % (g0, g1, cssutils.log.raiseExceptions))
+    return None
+
+
 def run_reuse(ctx_index, n, r):
     cssutils = common.setup_lifted()
     from sx.symstr import fresh_str, reduced_alphabet
@@ -396,6 +437,7 @@ def jobs(tier):
         for op in FAULT_OPS:
             out.append(('harness.c12', 'run_fault', dict(op=op, g=g, r=r)))
     out.append(('harness.c12', 'run_combine', {}))
+    out.append(('harness.c12', 'run_stale', {}))
     for name, ti in DOM_JOBS:
         for g in (True, False):
             for n in range(1, nmax + 1):
@@ -480,7 +522,7 @@ def main(tier):
                        'the probe battery stands for "any later call"']
     rep.stubs = ['logging: StubLog', 'fetcher: in-memory', 'codecs: sx/pycodecs.py']
     rep.outside = ['state outside the process', 'first calls longer than the infix bound']
-    rep.witness_required = ['returned', 'raised', 'reuse', 'combine', 'dom']
+    rep.witness_required = ['returned', 'raised', 'reuse', 'combine', 'dom', 'stale']
     return rep.finish()
 
 
@@ -520,6 +562,12 @@ def replay(case):
                           'sheet serialises as %r before and %r after'
                           % (inp['minify'], inp['resolveVariables'], inp['pref_resolveVariables'], changed, before, after),
                 'fields': {'symptom': 'combine-state', 'changed': '+'.join(changed)}}
+    if kind == 'stale':
+        problem = _stale(cssutils, inp['g0'], inp['g1'], inp['r'], inp['entry'])
+        cssutils.log.raiseExceptions = True
+        if not problem:
+            return {'reproduced': False, 'detail': 'mode handed back'}
+        return {'reproduced': True, 'detail': problem, 'fields': {'symptom': 'stale-parser-mode'}}
     if kind == 'reuse':
         cssutils.log.raiseExceptions = True
         parser = cssutils.CSSParser(raiseExceptions=r, validate=False, fetcher=lambda url: None)
